@@ -31,7 +31,7 @@ sys.path.insert(0, ROOT)
 
 
 class Job:
-    def __init__(self, pkg, templates, params=None, only=None, tier="quick", solver="z3a2:10000,cvc5:20000,z3new", tags="purego",
+    def __init__(self, pkg, templates, params=None, only=None, tier="quick", solver="z3a2:10000,cvc5:20000,z3new,z3s", tags="purego",
                  timeout_ms=60000, jobs=4, cross=None, label=None, skip_quick=None, goarch=None):
         self.pkg = pkg                # import path relative to module, e.g. "ecc/bn254/fr"
         self.templates = templates    # list of template paths relative to /verif/harness
